@@ -50,6 +50,38 @@ def scripted_programs(bpc):
     ]
 
 
+def second_session(ctx, case, r, oracles, model, use_model, remount_every):
+    """The closed image of a history is mounted again and EVERY directory of its tree is rewritten (one entry added, one removed, one
+    file appended to) with the entries as the reader parsed them from the device; then closed and judged like any other history."""
+    ir = r["impl"]
+    if not r["steps"] or r["steps"][0]["impl"][0] != "ok" or not any(s["op"][0] == "closefs" and s["impl"][0] == "ok" for s in r["steps"]):
+        return
+    img2 = ir.dev.volume()
+    enc = case.mount.get("encoding", "ibm437")
+    try:
+        w, _ = history.remount_walk(img2, 0, enc, True)
+    except Exception:  # noqa  (an image that does not mount is reported by the oracles of the first session)
+        return
+    dirs = ["/"] + sorted(p for p in w if w[p][0] == "d")
+    ops = []
+    for d in dirs[:8]:
+        base = d.rstrip("/")
+        files = sorted(p for p in w if w[p][0] == "f" and p.rsplit("/", 1)[0] == base)
+        ops.append(["create", base + "/second session.txt"])
+        if files:
+            ops.append(["remove", files[0]])
+        if len(files) > 1:
+            ops.append(["open", f"s{len(ops)}", files[1], "a"])
+            ops.append(["write", f"s{len(ops) - 1}", "73" * 7])
+            ops.append(["hclose", f"s{len(ops) - 2}"])
+        ops.append(["listdir", d])
+    ops.append(["closefs"])
+    mnt = {k: v for k, v in case.mount.items() if k != "offset"}
+    c2 = history.Case(case.label + "+s2", img2, ops, mount=mnt, meta=dict(case.meta, first_session=[o[:3] if o[0] != "write" else [o[0], o[1], f"<{len(o[2]) // 2} bytes>"] for o in case.ops]))
+    history.run_case(ctx, c2, oracles=oracles, model=model, use_model=use_model, remount_every=remount_every)
+    ctx.dist["second-session"] += 1
+
+
 def run_histories(ctx, oracles, nprog, nops, kind="namespace", vol_filter=None, mounts=None, remount_every=False,
                   extra_cases=(), add_close=True, use_model=True, uni=True, scripted=True, high=False):
     vols = gen.volumes(ctx.tier, high=high)
@@ -78,8 +110,10 @@ def run_histories(ctx, oracles, nprog, nops, kind="namespace", vol_filter=None, 
                 for si in ([k for k in range(len(progs)) if k % len(same) == j] if ctx.tier == "quick" else range(len(progs))):
                     mnt = dict(mounts[(vi + si) % len(mounts)])
                     case = history.Case(label, img, progs[si] + ([["closefs"]] if add_close else []), mount=mnt, meta=meta)
-                    history.run_case(ctx, case, oracles=oracles, model=m, use_model=use_model, remount_every=remount_every)
+                    r = history.run_case(ctx, case, oracles=oracles, model=m, use_model=use_model, remount_every=remount_every)
                     ctx.dist["scripted"] += 1
+                    if add_close and si % 2 == 0:
+                        second_session(ctx, case, r, oracles, m, use_model, remount_every)
         for i in range(nprog):
             if ctx.time_left() < 0:
                 ctx.notes.append(f"time budget reached after {i} programs")
@@ -96,6 +130,8 @@ def run_histories(ctx, oracles, nprog, nops, kind="namespace", vol_filter=None, 
                 ops = ops + [["closefs"]]
             case = history.Case(label, img, ops, mount=mnt, meta=meta)
             r = history.run_case(ctx, case, oracles=oracles, model=m, use_model=use_model, remount_every=remount_every)
+            if add_close and i % 2 == 0:
+                second_session(ctx, case, r, oracles, m, use_model, remount_every)
             sig = tuple(s["op"][0] for s in r["steps"])[:60]
             nerr = sum(1 for s in r["steps"] if s["impl"][0] == "err")
             if len(set(sig)) >= 5:
